@@ -361,7 +361,7 @@ def _joins(p, f, member, seen=None):
         if nm == 'std::thread::join' and member in canon(f, kids(kids(n)[0])[0] if kids(kids(n)[0]) else n, inline=False):
             gf = [(canon(f, c, inline=False).replace(' ', ''), t) for c, t in guard_facts(f, n)]
             only_joinable = all(('joinable()' in g and t) for g, t in gf)
-            stops = [m for m, cf2, nm2 in f.calls() if short(nm2) == 'stop' and 'Search' in nm2]
+            stops = [m for m, cf2, nm2 in f.calls() if _requests_stop(p, cf2, nm2)]
             stop_before = any(f.cfg.node_dominates(m, n) or _guarded_only_by_nonnull(f, m, n) for m in stops)
             return only_joinable, stop_before
     for n, cfid, nm in f.calls():
@@ -371,6 +371,21 @@ def _joins(p, f, member, seen=None):
             if j:
                 return j, sb
     return False, False
+
+
+def _requests_stop(p, fid, name, depth=0):
+    """the callee is Search::stop, or an engine function all of whose paths (null-guard aside) call something that is"""
+    if short(name) == 'stop' and 'Search' in name:
+        return True
+    g = p.funcs.get(fid)
+    if g is None or g.body is None or not g.file.startswith(p.root) or depth > 3:
+        return False
+    for m, cf2, nm2 in g.calls():
+        if _requests_stop(p, cf2, nm2, depth + 1):
+            gf = guard_facts(g, m)
+            if not gf or (len(gf) == 1 and gf[0][1]):
+                return True
+    return False
 
 
 def _guarded_only_by_nonnull(f, stop_call, join_call):
